@@ -45,7 +45,7 @@ CHECKS["C02"] = {
     "required_reach": ["types/structure.py:StructureMetaType._write", "types/structure.py:StructureMetaType._read",
                        "bitbuffer.py:BitBuffer.flush", "types/base.py:MetaType._write_0",
                        "types/char.py:CharArray._write", "<compiled>"],
-    "required_cells": ["align:True", "align:False", "endian:<", "endian:>", "feat:bits", "feat:arr:null"],
+    "required_cells": ["pinned-witnesses", "align:True", "align:False", "endian:<", "endian:>", "feat:bits", "feat:arr:null"],
     "assumptions": ASSUME_COMMON,
 }
 
@@ -61,7 +61,7 @@ CHECKS["C01"] = {
                        "bitbuffer.py:BitBuffer.write", "bitbuffer.py:BitBuffer.read", "types/base.py:BaseArray._write",
                        "types/int.py:Int._write", "types/packed.py:Packed._write", "types/enum.py:EnumMetaType._write",
                        "types/pointer.py:Pointer._write", "<compiled>"],
-    "required_cells": ["align:True", "align:False", "endian:<", "endian:>", "feat:bits:signed", "feat:union",
+    "required_cells": ["pinned-witnesses", "align:True", "align:False", "endian:<", "endian:>", "feat:bits:signed", "feat:union",
                        "feat:ptr", "feat:arr:struct"],
     "assumptions": ASSUME_COMMON,
 }
@@ -218,7 +218,7 @@ CHECKS["C12"] = {
                        "types/enum.py:EnumMetaType._write", "types/enum.py:EnumMetaType._write_array",
                        "parser.py:TokenParser._enum", "parser.py:CStyleParser._enums", "types/enum.py:Enum.__eq__",
                        "types/flag.py:Flag.__eq__", "types/enum.py:Enum.__hash__", "types/flag.py:Flag.__hash__"],
-    "required_cells": ["enum:compiled", "enum:interpreted", "flag:compiled", "flag:interpreted", "legacy-parser",
+    "required_cells": ["pinned-witnesses", "enum:compiled", "enum:interpreted", "flag:compiled", "flag:interpreted", "legacy-parser",
                        "anonymous-enum", "enum:int8", "flag:uint8", "enum:uint24", "flag:int16"],
     "assumptions": ASSUME_COMMON,
 }
@@ -340,7 +340,7 @@ CHECKS["C11"] = {
                        "types/structure.py:Union._proxify", "types/structure.py:UnionProxy.__setattr__",
                        "types/structure.py:UnionMetaType._write",
                        "types/structure.py:UnionMetaType._calculate_size_and_offsets"],
-    "required_cells": ["align:True", "align:False", "shape:top", "shape:field", "shape:anon", "route:direct",
+    "required_cells": ["pinned-witnesses", "align:True", "align:False", "shape:top", "shape:field", "shape:anon", "route:direct",
                        "route:nested-via-proxy", "route:anonymous-struct-field", "route:array-replace"],
     "assumptions": ASSUME_COMMON + ["an assignment writes the member's full encoding (its padding as zero) into the "
                                     "union's bytes"],
